@@ -124,7 +124,12 @@ def execute(case: Dict[str, Any], M: Optional[Model] = None, built: Any = None, 
                 b = built
             else:
                 PB = P
-                if via == "config" and case.get("group_conf"):
+                if case.get("nested"):
+                    # the same program called as a DAG inside an outer DAG (`def outer(*a): return inner(*a)`): its
+                    # nodes are spliced into the outer graph with all their attributes, so every oracle applies as is
+                    PB = {"name": "OUTER", "params": [list(p_) for p_ in P["params"]], "fns": {}, "ret": ["x", ["v", "w"]],
+                          "body": [{"k": "sub", "prog": P, "args": [["p", n_] for n_, _d in P["params"]], "active": None, "out": "w"}]}
+                elif via == "config" and case.get("group_conf"):
                     # sites with equal attributes are configured through ONE entry keyed by a tag they share
                     PB, gconf = prog.group_config(P)
                 b = prog.build(PB, is_async=bool(case.get("async")), mc=case.get("build_mc", M.mc), decorate_attrs=(via != "config"))
@@ -140,6 +145,9 @@ def execute(case: Dict[str, Any], M: Optional[Model] = None, built: Any = None, 
                         b.dag(*args)
                 except Exception:  # noqa: BLE001 - e.g. a missing argument; the observed call is judged on its own
                     pass
+            if case.get("nested") and built is None:
+                b.prog = P
+                b.xns = b.subs["w"].xns
             if via == "config" and built is None:
                 conf = gconf if gconf is not None else prog.config_dict(P)
                 if "build_mc" in case:
@@ -153,8 +161,19 @@ def execute(case: Dict[str, Any], M: Optional[Model] = None, built: Any = None, 
                 for s, q in (case.get("reconf_seq") or {}).items():
                     nodes.setdefault(s.lstrip(prog.MARK), {})["is_sequential"] = q
                 b.dag.config_from_dict({"nodes": nodes})
+            if built is None and case.get("derive") == "deepcopy":
+                import copy as _copy
+
+                b = prog.Built(b.prog, _copy.deepcopy(b.dag), b.xns, b.subs)  # a deep copy is a DAG like the original
+            elif built is None and case.get("derive") == "compose":
+                # compose() without inputs and with every site as output: the same computation, a derived DAG object
+                ids_ = b.node_ids()
+                b = prog.Built(b.prog, b.dag.compose("CMP", [], [ids_[s] for s in M.sites], max_concurrency=M.mc), b.xns, b.subs)
             out.built = b
             target: Any = b.dag
+            if case.get("derive") == "executor" and not (case.get("sel") and any(case["sel"].get(k) is not None for k in "TXR")) \
+                    and case.get("call") != "setup":
+                target = b.dag.executor()  # dag.executor()(...) instead of dag(...)
             sel = case.get("sel")
             if case.get("call") == "setup":
                 ids = b.node_ids()
